@@ -1046,6 +1046,7 @@ func c10(p *core.Prog, res *core.Result) {
 	res.Rule("S3b", "transaction writes do not go straight to the store handle", 8)
 	res.Rule("S4", "library iterators are positioned before use", 5)
 	res.Rule("S5", "driver names selected by the server are registered and linked", 4)
+	res.Rule("S8", "a byte slice handed out by a library iterator/cursor/item is copied before an adapter keeps it in a field or a collected slice", 8)
 
 	kvIface := p.Iface("kvi", "KVInterface")
 	txIface := p.Iface("kvi", "KVTransaction")
@@ -1108,6 +1109,7 @@ func c10(p *core.Prog, res *core.Result) {
 			continue
 		}
 		c10positioned(p, res, "S4", fi)
+		c10retain(p, res, fi, "S8", realLib)
 	}
 	c10registration(p, res, "S5")
 	res.Rule("S6", "block-wise prefix deletes repeat whenever a block came back full", 3)
@@ -1460,6 +1462,8 @@ func c10selftest(st *core.Prog, res *core.Result) {
 			c10commit(st, tmp, "S3", fi)
 		case strings.Contains(fi.Obj.Name(), "Pos"):
 			c10positioned(st, tmp, "S4", fi)
+		case strings.Contains(fi.Obj.Name(), "Keep"):
+			c10retain(st, tmp, fi, "S8", func(path string) bool { return strings.HasSuffix(path, "/c10/lib") })
 		default:
 			continue
 		}
